@@ -68,32 +68,38 @@ Record backend := mkB {
   b_healthy : bool; b_succ : N; b_fails : N;
   b_retry : retry;
   b_conns : N; b_reqs : N; b_failures : N;
-  b_weight : option Z; b_backup : bool }.
+  b_weight : option Z; b_backup : bool;
+  b_rtt : N                      (* peak of the observed connection times, ns ([PeakEWMA::rtt] without decay) *) }.
 
 Definition backend_new (id addr : N) (sticky : option N) (w : option Z) (backup : bool) (now : N) : backend :=
-  mkB id addr sticky Normal true 0 0 (retry_new 6 now) 0 0 0 w backup.
+  mkB id addr sticky Normal true 0 0 (retry_new 6 now) 0 0 0 w backup 50000000.
 
 Definition set_status (b : backend) (s : status) : backend :=
   mkB (b_id b) (b_addr b) (b_sticky b) s (b_healthy b) (b_succ b) (b_fails b) (b_retry b)
-      (b_conns b) (b_reqs b) (b_failures b) (b_weight b) (b_backup b).
+      (b_conns b) (b_reqs b) (b_failures b) (b_weight b) (b_backup b) (b_rtt b).
 Definition set_health (b : backend) (h : bool) (s f : N) : backend :=
   mkB (b_id b) (b_addr b) (b_sticky b) (b_status b) h s f (b_retry b)
-      (b_conns b) (b_reqs b) (b_failures b) (b_weight b) (b_backup b).
+      (b_conns b) (b_reqs b) (b_failures b) (b_weight b) (b_backup b) (b_rtt b).
 Definition set_retry (b : backend) (r : retry) : backend :=
   mkB (b_id b) (b_addr b) (b_sticky b) (b_status b) (b_healthy b) (b_succ b) (b_fails b) r
-      (b_conns b) (b_reqs b) (b_failures b) (b_weight b) (b_backup b).
+      (b_conns b) (b_reqs b) (b_failures b) (b_weight b) (b_backup b) (b_rtt b).
 Definition set_conns (b : backend) (s : status) (n : N) : backend :=
   mkB (b_id b) (b_addr b) (b_sticky b) s (b_healthy b) (b_succ b) (b_fails b) (b_retry b)
-      n (b_reqs b) (b_failures b) (b_weight b) (b_backup b).
+      n (b_reqs b) (b_failures b) (b_weight b) (b_backup b) (b_rtt b).
 Definition set_reqs (b : backend) (n : N) : backend :=
   mkB (b_id b) (b_addr b) (b_sticky b) (b_status b) (b_healthy b) (b_succ b) (b_fails b) (b_retry b)
-      (b_conns b) n (b_failures b) (b_weight b) (b_backup b).
+      (b_conns b) n (b_failures b) (b_weight b) (b_backup b) (b_rtt b).
 Definition set_failures (b : backend) (n : N) : backend :=
   mkB (b_id b) (b_addr b) (b_sticky b) (b_status b) (b_healthy b) (b_succ b) (b_fails b) (b_retry b)
-      (b_conns b) (b_reqs b) n (b_weight b) (b_backup b).
+      (b_conns b) (b_reqs b) n (b_weight b) (b_backup b) (b_rtt b).
+(** [Backend::set_connection_time] -> [PeakEWMA::observe] with the decay switched off: a rising time is taken at
+    once, a lower one changes nothing *)
+Definition observe_rtt (b : backend) (v : N) : backend :=
+  mkB (b_id b) (b_addr b) (b_sticky b) (b_status b) (b_healthy b) (b_succ b) (b_fails b) (b_retry b)
+      (b_conns b) (b_reqs b) (b_failures b) (b_weight b) (b_backup b) (N.max (b_rtt b) v).
 Definition set_config (b : backend) (sticky : option N) (w : option Z) (backup : bool) : backend :=
   mkB (b_id b) (b_addr b) sticky (b_status b) (b_healthy b) (b_succ b) (b_fails b) (b_retry b)
-      (b_conns b) (b_reqs b) (b_failures b) w backup.
+      (b_conns b) (b_reqs b) (b_failures b) w backup (b_rtt b).
 
 (** [HealthState::record_success] / [record_failure]: new backend, transitioned? *)
 Definition record_success (b : backend) (thr : N) : backend * bool :=
@@ -173,9 +179,12 @@ Fixpoint hset (hp : heap) (h : nat) (b : backend) : heap :=
 (* ------------------------------------------------------------------ *)
 (** * Policies ([load_balancing.rs]) *)
 
-Inductive metric := MConn | MReq.
+Inductive metric := MConn | MReq | MTime.
 Definition measure (m : metric) (b : backend) : N :=
-  match m with MConn => b_conns b | MReq => b_reqs b end.
+  match m with
+  | MConn => b_conns b | MReq => b_reqs b
+  | MTime => (b_conns b + 1) * b_rtt b      (* [peak_ewma_connection]: (active_connections + 1) * rtt *)
+  end.
 
 (** Maglev: table entries index [m_addrs]; [None] is the [usize::MAX] sentinel
     of a slot never filled (shown not to survive a rebuild, [C12/Proofs.v]) *)
@@ -657,7 +666,8 @@ Inductive op :=
 | OSelect (c : nat) (key : option N)
 | OConnect (h : nat) (w : N)
 | OSelectConn (c : nat) (w : N)
-| OStickyConn (c : nat) (sid w : N).
+| OStickyConn (c : nat) (sid w : N)
+| ORtt (h : nat) (v : N).
 
 Definition apply_op (s : state) (o : op) : state :=
   match o with
@@ -691,6 +701,7 @@ Definition apply_op (s : state) (o : op) : state :=
   | OConnect h w => if (h <? length (s_heap s))%nat then fst (connect_handle s h w) else s
   | OSelectConn c w => fst (fst (backend_from_cluster s c w))
   | OStickyConn c sid w => fst (fst (backend_from_sticky s c sid w))
+  | ORtt h v => on_handle s h (fun b => observe_rtt b v)
   end.
 
 Definition run_ops (s : state) (ops : list op) : state := fold_left apply_op ops s.
